@@ -197,6 +197,16 @@ def specs(w):
                     if kind == "call":
                         continue  # __call__ under DBC is covered in C04 (metaclass attribute lookup)
                     yield (str(shape), kind, is_async), spec
+        # long gaps: a chain of five whose classes in the middle (two or three in a row) do not override the member
+        for kind in ("method", "static", "pget", "pset"):
+            for gap in (2, 3):
+                idx += 1
+                if idx % w.nshards != w.shard:
+                    continue
+                ids = gen.Ids()
+                shape = [[]] + [[i] for i in range(4)]
+                choices = ["both"] + ["absent"] * gap + ["post"] * (4 - gap)
+                yield ("long-gap", kind, gap), gen.hier_program(ids, rng, shape, kind, False, choices=choices, inv_prob=0.0, max_conj=2, avoid_mixed=True)
 
 
 MUTABLE_DEFAULT_SOURCE = '''
